@@ -9,6 +9,7 @@ import (
 
 	"golang.org/x/tools/go/ssa"
 
+	"jtverif/internal/load"
 	"jtverif/internal/report"
 )
 
@@ -697,6 +698,7 @@ func runC11(c *Ctx) {
 	c.sessionRules(true)
 	c.managerOnce()
 	c.replyPerRequest()
+	c.managerRunsNoUserCode()
 	R.Require("E5.confine", 3, "")
 	R.Require("E5.leave", 1, "")
 	R.Require("E5.stop-order", 2, "")
@@ -765,4 +767,56 @@ func (c *Ctx) replyPerRequest() {
 		}
 	}
 	R.Require("E5.reply-per-request", 2, "")
+}
+
+// managerRunsNoUserCode: the operations executed on the session-manager goroutine are the registry's critical
+// sections; every connection's join, leave and command routing waits for them. They contain no dynamic call - no
+// method of a user-implementable interface (TerminalEventer, Handler) and no function value handed in from outside:
+// user code that re-enters the service (SendActiveMessage from a leave callback) would wait for the very goroutine it
+// runs on, and the registry stops for every terminal.
+func (c *Ctx) managerRunsNoUserCode() {
+	R := c.R
+	R.Rules["E5.manager-pure"] = "operations executed by the session-manager goroutine make no dynamic call (interface method of a user-implementable type, function value received from outside): user callbacks never run on the goroutine every join / leave / routing waits for"
+	n := 0
+	seen := map[*ssa.Function]bool{}
+	for _, fn := range c.RepoFuncs("service") {
+		for _, op := range c.opsSentOn(fn, "operationFuncChan") {
+			if seen[op] {
+				continue
+			}
+			seen[op] = true
+			n++
+			var bad []string
+			for _, g := range c.familyOf(op) {
+				for _, b := range g.Blocks {
+					for _, ins := range b.Instrs {
+						ci, isCI := ins.(ssa.CallInstruction)
+						if !isCI {
+							continue
+						}
+						cc := ci.Common()
+						if _, isB := cc.Value.(*ssa.Builtin); isB {
+							continue
+						}
+						if cc.IsInvoke() {
+							// error.Error and the like on library values are not user callbacks
+							if nt, okN := derefNamedType(cc.Value.Type()); okN && nt.Obj().Pkg() != nil && strings.HasPrefix(nt.Obj().Pkg().Path(), load.ModPrefix) {
+								bad = append(bad, fmt.Sprintf("%s.%s at %s", nt.Obj().Name(), cc.Method.Name(), c.P.RelPos(ins.Pos())))
+							}
+							continue
+						}
+						if cc.StaticCallee() == nil {
+							bad = append(bad, fmt.Sprintf("a call of the function value %s at %s", cc.Value.Name(), c.P.RelPos(ins.Pos())))
+						}
+					}
+				}
+			}
+			st, d := report.Discharged, ""
+			if len(bad) > 0 {
+				st, d = report.Violated, "the operation calls "+strings.Join(dedupe(bad), ", ")+" on the manager goroutine: a callback that re-enters the service (SendActiveMessage, a reconnect it waits for) blocks on the goroutine it runs on, and every join, leave and command of every terminal hangs behind it"
+			}
+			R.Add("E5.manager-pure", shortFn(fn)+" / "+shortFn(op), c.P.RelPos(op.Pos()), st, d)
+		}
+	}
+	R.Require("E5.manager-pure", 3, "")
 }
